@@ -39,6 +39,13 @@ def hcQubit (a : Op) : Op :=
 def hcQuad (a : Op) : Op :=
   a.foldl (fun acc (t, c) => Dict.set acc (sortF t.reverse) c.conj) []
 
+/-- InteractionOperator branch: `constant.conjugate()`, and `tensor.T.conj()` for the one- and
+two-body tensors (`.T` reverses *all* axes).  A tensor is its list of `(index tuple, value)`. -/
+def hcTensor (t : List (List Nat × GQ)) : List (List Nat × GQ) := t.map fun e => (e.1.reverse, e.2.conj)
+
+def hcInteraction (constant : GQ) (one two : List (List Nat × GQ)) : GQ × List (List Nat × GQ) × List (List Nat × GQ) :=
+  (constant.conj, hcTensor one, hcTensor two)
+
 def hermitianConjugated : Cls → Op → Op
   | .fermion, a => hcFermion a
   | .boson, a => hcBoson a
